@@ -265,7 +265,7 @@ func RunTimedWorld(r sim.Src, mons []*sim.Mon, keepLog bool, sh TimedShape) *sim
 	}
 	sim.SortPlan(o.Plan)
 	if sh.Kind == "c09" {
-		mons = append(mons, sim.MonProgress("C09", maxView))
+		mons = append(mons, sim.MonProgress("C09", maxView), sim.MonRecoveryCatchUp("C09"))
 	}
 	if sh.Kind == "c13" {
 		mons = append(mons, sim.MonProgress("C13", maxView))
